@@ -211,6 +211,60 @@ func (p *Pilot) AcceptedEdit() {
 	p.restartNext = true
 }
 
+// MarginParamsZeros: the margin administrator sets parameters to a MEANINGFUL zero through the live message path:
+// a fund percentage waived (UpdateParams), open/removal thresholds at zero, or AdminCloseAll without the margin
+// fund cut (which zeroes ForceCloseFundPercentage).  An export must carry the zero, not a default.
+func (p *Pilot) MarginParamsZeros(variant int) {
+	adm := p.W.Admin
+	params := p.C.App.MarginKeeper.GetParams(p.C.Ctx())
+	np := params
+	zero := sdk.ZeroDec()
+	switch variant % 4 {
+	case 0:
+		np.ForceCloseFundPercentage = zero
+	case 1:
+		np.IncrementalInterestPaymentFundPercentage = zero
+	case 2:
+		np.ForceCloseFundPercentage = zero
+		np.IncrementalInterestPaymentFundPercentage = zero
+		np.PoolOpenThreshold = zero
+		np.RemovalQueueThreshold = zero
+		np.IncrementalInterestPaymentEnabled = false
+	default:
+		m := margintypes.MsgAdminCloseAll{Signer: adm.Addr.String(), TakeMarginFund: false}
+		p.Tx("margin.admincloseall.nofund", adm, &m)
+		return
+	}
+	m := margintypes.MsgUpdateParams{Signer: adm.Addr.String(), Params: &np}
+	p.Tx("margin.updateparams.zeros", adm, &m)
+}
+
+// ZeroParams: single-value parameters of the other modules set to zero / empty / off through their messages.
+func (p *Pilot) ZeroParams() {
+	adm := p.W.Admin
+	a := adm.Addr.String()
+	switch p.R.Intn(6) {
+	case 0:
+		m := clptypes.MsgUpdateSwapFeeParamsRequest{Signer: a, DefaultSwapFeeRate: sdk.ZeroDec(), TokenParams: []*clptypes.SwapFeeTokenParams{{Asset: "ceth", SwapFeeRate: sdk.ZeroDec()}}}
+		p.Tx("clp.admin.swapfee.zero", adm, &m)
+	case 1:
+		m := clptypes.MsgUpdateLiquidityProtectionParams{Signer: a, MaxRowanLiquidityThreshold: sdk.ZeroUint(), MaxRowanLiquidityThresholdAsset: "rowan", EpochLength: 1, IsActive: false}
+		p.Tx("clp.admin.liqprot.off", adm, &m)
+	case 2:
+		m := clptypes.MsgUpdateRewardsParamsRequest{Signer: a, LiquidityRemovalLockPeriod: 0, LiquidityRemovalCancelPeriod: 0, RewardsLockPeriod: 0, RewardsEpochIdentifier: "hour", RewardsDistribute: false}
+		p.Tx("clp.admin.rewardsparams.zero", adm, &m)
+	case 3:
+		m := ethbridgetypes.MsgPause{Signer: a, IsPaused: p.R.Bool()}
+		p.Tx("bridge.pause", adm, &m)
+	case 4:
+		m := clptypes.MsgAddProviderDistributionPeriodRequest{Signer: a, DistributionPeriods: []*clptypes.ProviderDistributionPeriod{
+			{DistributionPeriodBlockRate: sdk.ZeroDec(), DistributionPeriodStartBlock: uint64(p.Height()) + 1, DistributionPeriodEndBlock: uint64(p.Height()) + 500, DistributionPeriodMod: 1}}}
+		p.Tx("clp.admin.lppd.zero", adm, &m)
+	default:
+		p.MarginParamsZeros(p.R.Intn(4))
+	}
+}
+
 // EditReadFail: [edit X, a message that reads X (succeeds, or is refused after reading), a send of more than the
 // sender owns] — rejected as a whole.  Whatever the reader computed or cached from the edited X must be gone
 // with the transaction; the block after it becomes a restart point of the `restarted` executions, so that a node
